@@ -4,6 +4,9 @@
     accept <v00|v10|v01|v11> <step> … → ok <n> <reordered 0|1>  |  reject <index> <part> <expected> <got>
                                         (variant: F6 repaired / F7 repaired in the tree under test)
     holds <final 0|1> <step> …        → true  |  false <clause>@<step>@<detail> <clause>@… (every failing clause)
+    wire <frame> …                    → true  |  false <index> <frame>   (RFC 7540 §6.10 on frames in arrival order, `H2.wireOk`)
+    handoff <idle> <read> <readHeader> <write> <mitmHandshake> <hold>   (ms; 0 = not set)
+                                      → alive | dead   (is an h2 connection still read `hold` ms after the CONNECT response, `H2.connectThenMITM`)
 
   step   = <op>/<fwdQ>/<fwdD>/<backQ>/<backD>
   op     = side,kind,args…            side = c | s
@@ -17,6 +20,7 @@
            S,id,val… | A | G,ack,data | Z,last,code,debugLen | W,sid,inc
 -/
 import FwdVerif.Model.H2Check
+import FwdVerif.Model.H2Handoff
 
 namespace FwdVerif
 namespace H2
@@ -121,6 +125,21 @@ def handle : List String → String
       | [] => "true"
       | fs => "false " ++ " ".intercalate (fs.map Fail.render)
     | _, _ => "bad-op"
+  | "wire" :: frames =>
+    match frames.mapM parseFrame with
+    | none => "bad-op"
+    | some obs =>
+      let fs := obs.map (·.f)
+      match wireFirstBad none 0 fs with
+      | none => "true"
+      | some i => s!"false {i} {match fs[i]? with | some f => frameTag f | none => "~"}"
+  | ["handoff", idle, read, rh, write, mitm, hold] =>
+    match natOf idle, natOf read, natOf rh, natOf write, natOf mitm, natOf hold with
+    | some idle, some read, some rh, some write, some mitm, some hold =>
+      let t : Timeouts := { idle := idle, read := read, readHeader := rh, write := write, mitmHandshake := mitm }
+      let x := connectThenMITM false t 0 0 0 .tlsH2
+      if x.2 == .relay && !x.1.firedBy hold then "alive" else "dead"
+    | _, _, _, _, _, _ => "bad-op"
   | _ => "bad-op"
 
 end H2
